@@ -1,6 +1,7 @@
 #!/bin/bash
 # Runs every check's thorough tier in sequence inside the current directory (a snapshot of /verif); prints one summary line per check.
 export VERIF_DIR=$PWD
+if [ -n "$VP_RUN_REPO" ]; then export VERIF_REPO=$VP_RUN_REPO; fi
 ./setup.sh --no-warm >/dev/null 2>&1
 for id in "$@"; do
   start=$(date +%s)
